@@ -30,6 +30,7 @@ static int vp_isspace(int c) { return c == ' ' || (c >= 9 && c <= 13); }
 #define isspace vp_isspace
 #define FWD(p, old) (VP_NUL_AT_OR_AFTER(p) && __CPROVER_POINTER_OFFSET(p) >= __CPROVER_POINTER_OFFSET(old))
 char *g_base; size_t g_n;
+size_t g_qoff;      /* ghost: an arbitrary offset behind an opening quote (witness of 'no earlier occurrence of that quote') */
 static const char *vp_mkstring(void) {
   g_n = nondet_size_t(); __CPROVER_assume(g_n >= 1 && g_n <= 100000);
   g_base = vp_malloc(g_n); g_base[g_n - 1] = 0;
@@ -46,7 +47,11 @@ SCAN_CONTRACT = ('__CPROVER_requires(VP_NUL_AT_OR_AFTER(s)) '
 
 QUOTE_CONTRACT = ('__CPROVER_requires(VP_NUL_AT_OR_AFTER(s) && (*s == \'\\\'\' || *s == \'"\')) '
                   '__CPROVER_ensures(VP_NUL_AT_OR_AFTER(__CPROVER_return_value) && '
-                  '__CPROVER_POINTER_OFFSET(__CPROVER_return_value) >= __CPROVER_POINTER_OFFSET(s) + 1) __CPROVER_assigns()')
+                  '__CPROVER_POINTER_OFFSET(__CPROVER_return_value) >= __CPROVER_POINTER_OFFSET(s) + 1) '
+                  # functional clause: the scan ends just behind a later occurrence of the opening quote character ITSELF (not the other kind of quote), or at the terminator
+                  '__CPROVER_ensures(*__CPROVER_return_value == 0 || (__CPROVER_POINTER_OFFSET(__CPROVER_return_value) >= __CPROVER_POINTER_OFFSET(s) + 2 && __CPROVER_return_value[-1] == s[0])) '
+                  '__CPROVER_assigns()')
+QUOTE_INV = ''      # (a witness clause 'no earlier occurrence of the opening quote' was tried and dropped: unbounded ghost offsets; the end-of-scan clause decides the property's case)
 
 SCANNERS = {
     'SkipSpaces': r'const char \*SkipSpaces\(const char \*s\)',
@@ -62,7 +67,7 @@ def scanner_fn(name, contract=True):
         c = QUOTE_CONTRACT
     return Fn(SOLVER, SCANNERS[name], 'const char *%s(const char *s)' % name, contract=c if contract else '',
               loops={0: '__CPROVER_assigns(s) __CPROVER_loop_invariant(%s && __CPROVER_POINTER_OFFSET(s) >= '
-                        '__CPROVER_POINTER_OFFSET(__CPROVER_loop_entry(s))) %s' % (INV, DEC)},
+                        '__CPROVER_POINTER_OFFSET(__CPROVER_loop_entry(s))%s) %s' % (INV, QUOTE_INV if name == 'SkipToMatchingQuote' else '', DEC)},
               label='(anonymous)::' + name, nmatches=1)
 
 
